@@ -332,6 +332,17 @@ M("C10", "convert-conventions-reverse-default-true", "iodata/convert.py", r"new_
 M("C17", "gaussianlog-claims-out-files", F + "gaussianlog.py", r'PATTERNS = \["\*\.log"\]', 'PATTERNS = ["*.log", "*.out"]', "C17-R8")
 M("C17", "registry-drops-modules-with-empty-patterns", "iodata/api.py", r'            if hasattr\(format_module, "PATTERNS"\):', '            if getattr(format_module, "PATTERNS", None):', "C17-R9")
 
+M("C06", "kernel-parity-step-from-zero", "iodata/overlap.py", r"for j in range\(i % 2, n2 \+ 1, 2\):", "for j in range(0, n2 + 1, 2):", "C06-R11")
+M("C06", "kernel-power-of-two-a-doubled", "iodata/overlap.py", r"two_at \*\* \(m / 2\)", "two_at ** m", "C06-R11")
+M("C06", "kernel-binomial-of-wrong-function", "iodata/overlap.py", r"self\.binomials\[n2\]\[j\]", "self.binomials[n1][j]", "C06-R11")
+M("C06", "kernel-double-factorials-shifted", "iodata/overlap.py", r"        facts\.insert\(0, 1\)\n", "", "C06-R11")
+M("C06", "normalisation-power-halved", "iodata/overlap.py", r"\(2 \* alpha / np\.pi\) \*\* 1\.5", "(2 * alpha / np.pi) ** 0.75", "C06-R12")
+M("C06", "normalisation-two-alpha-per-power", "iodata/overlap.py", r"\(4 \* alpha\) \*\* sum\(n\)", "(2 * alpha) ** sum(n)", "C06-R12")
+M("C11", "charge-setter-sign-slip", "iodata/iodata.py", r"            self\.nelec = self\.atcorenums\.sum\(\) - charge\n", "            self.nelec = self.atcorenums.sum() + charge\n", "C11-R7")
+M("C11", "natom-from-columns", "iodata/iodata.py", r"            natom = len\(self\.atcoords\)", "            natom = self.atcoords.shape[1]", "C11-R1")
+M("C12", "beta-setter-slices-from-end", "iodata/orbitals.py", r"(    @occsb\.setter(?:.|\n)*?)self\.occs\[self\.norba :\] = occsb", "\\1self.occs[-self.norbb :] = occsb", "C12-R4")
+M("C12", "nbasis-generalized-not-halved", "iodata/orbitals.py", r"            return self\.coeffs\.shape\[0\] // 2", "            return self.coeffs.shape[0]", "C12-R2")
+
 # ----------------------------------------------------------------------------- additions (fourth round, batch 6)
 M("C07", "extxyz-title-parsed-after-putback", F + "extxyz.py", r"    atom_columns, title_data = _parse_title\(title_line, lit\)\n    lit\.back\(title_line\)\n    lit\.back\(atom_line\)\n", "    lit.back(title_line)\n    lit.back(atom_line)\n    atom_columns, title_data = _parse_title(title_line, lit)\n", "C07-R8")
 M("C07", "mol2-atom-loop-skips-blank-lines", F + "mol2.py", r"(    for i in range\(natoms\):\n        words = next\(lit\)\.split\(\)\n)", "\\1        if not words:\n            continue\n", "C07-R9")
